@@ -209,12 +209,14 @@ def _trim_case(task):
     """cutoffmask/cutoffmask2 remove exactly mask_len / 2 mask_len per side;
     excision does not touch its argument."""
     from aurel.finitedifference import FiniteDifference
-    order, shape = task
+    order, shape = task[:2]
+    boundary = task[2] if len(task) > 2 else 'no boundary'
     bad = []
     p = {'Nx': 20, 'Ny': 20, 'Nz': 20, 'xmin': -1., 'ymin': -1., 'zmin': -1.,
          'dx': 0.1, 'dy': 0.1, 'dz': 0.1}
     with quiet():
-        fd = FiniteDifference(p, fd_order=order, verbose=False)
+        fd = FiniteDifference(p, fd_order=order, boundary=boundary,
+                              verbose=False)
     # documented: an order other than 2, 4, 6, 8 falls back to 4
     eff = order if order in (2, 4, 6, 8) else 4
     m = eff // 2
@@ -367,10 +369,15 @@ def main(tier):
         for shape in [(20,), (20, 18), (20, 18, 19), (17,), (17, 17, 17),
                       (3, 20, 18, 19), (3, 3, 17, 17, 17)]:
             ttasks.append((o, shape))
+    # the helpers trim whatever the boundary mode of the object
+    for o in ORDERS:
+        for b in ('periodic', 'symmetric'):
+            for shape in [(20,), (20, 18, 19), (3, 20, 18, 19)]:
+                ttasks.append((o, shape, b))
     for t, r_ in zip(ttasks, runner.pmap(trim_case, ttasks, workers=4)):
         for bad in r_['bad']:
             run.violation(f"C16:trim:{bad[0]}", f"order={t[0]} "
-                          f"shape={t[1]}: {bad}",
+                          f"shape={t[1]} {t[2:]}: {bad}",
                           {'kind': 'trim', 'task': [t[0], list(t[1])]})
     # consumers
     ctasks = []
